@@ -133,6 +133,7 @@ def determinism_selftest(check, batches, base_seed, ctx, n=6):
             raise pool.HarnessError("HARNESS-ERROR in determinism self-test: %r" % (r,))
     mism = [i for i in idx if d1.get(i) != d2.get(i)]
     fresh_ok = None
+    hashseed_dependent = False
     if getattr(check, "FRESH_DIGEST_OK", True):
         env = dict(os.environ)
         env["PYTHONHASHSEED"] = "12345"
@@ -147,9 +148,16 @@ def determinism_selftest(check, batches, base_seed, ctx, n=6):
         d3 = json.loads(p.stdout.strip().splitlines()[-1])
         fresh_ok = all(d3.get(str(i)) == d1.get(i) for i in idx[:3])
         if not fresh_ok:
-            mism.append("fresh-interpreter")
+            # harness or code under test?  repeat in a fresh interpreter under the harness's own hash seed
+            env["PYTHONHASHSEED"] = os.environ.get("PYTHONHASHSEED", "0")
+            p2 = subprocess.run(cmd, env=env, capture_output=True, text=True, timeout=600, cwd=VERIF)
+            d4 = json.loads(p2.stdout.strip().splitlines()[-1]) if p2.returncode == 0 else {}
+            if all(d4.get(str(i)) == d1.get(i) for i in idx[:3]):
+                hashseed_dependent = True     # reproducible per hash seed: the code under test depends on it
+            else:
+                mism.append("fresh-interpreter")
     return {"seeds_double_run": n, "fresh_interpreter_other_hashseed": 3 if fresh_ok is not None else 0,
-            "mismatches": mism}
+            "mismatches": mism, "results_depend_on_PYTHONHASHSEED": hashseed_dependent}
 
 
 def print_digests(check, batch_name, indices, base_seed):
@@ -222,6 +230,9 @@ def main(check, tier, base_seed):
         if selftest["mismatches"]:
             print("HARNESS-ERROR nondeterminism: %r" % (selftest["mismatches"],))
             return 2
+        if selftest.get("results_depend_on_PYTHONHASHSEED"):
+            print("note: the simulated runs are reproducible per hash seed but differ between PYTHONHASHSEED "
+                  "values -- the code under test depends on the hash seed (judged by C14's `seeds` batch)")
 
         tot = {"evaluations": 0, "stats": {}, "faults": {}, "probes": {}, "steps_total": 0,
                "steps_max": 0, "digests": set(), "nontrivial_digests": set(), "samples": [],
